@@ -97,12 +97,13 @@ Proof.
            tanf_range_glide tanf_accuracy_glide sharp_good).
 Qed.
 
-(** C14_fastest with the additional hypothesis [t <> -0.0]; as stated in Props/C14.v
-    (without it) the property is false: [fastest_as_stated_is_false] *)
-Theorem fastest_partial : forall fs g0 g t,
+(** C14_fastest.  (With the original [glide_f0], which took the reciprocal of [t] itself, this
+    was false for [t = -0.0]: [1 / -0.0 = -infinity] clamps to the minimum cutoff.  The code
+    and the model now replace both zeros by [+0.0] first.) *)
+Theorem fastest : forall fs g0 g t,
   glide_fs_ok fs -> glide_new fs = Some g0 ->
   (exists ops, Forall op_time_ok ops /\ glide_after g0 ops = Some g) ->
-  fin t -> 0 <= R32 t < 2 / R32 fs -> t <> B754_zero true ->
+  fin t -> 0 <= R32 t < 2 / R32 fs ->
   coeffs_for g t = Some (d_c (g_lpf g0)) /\
   Rabs (pole (d_c (g_lpf g0))) <= / 1048576.
 Proof.
